@@ -258,7 +258,27 @@ def run_case(case, ctx):
                     setattr(S, atomsgen.ARR[knd], np.array(terms, dtype=int))
                     setattr(S, "%s_types" % knd, np.array([int(x) for x in rng.integers(0, 2, len(terms))]))
                     setattr(S, "extra_%s_fields" % knd, np.full((len(terms), 0), ".", dtype=object))
-            n = check_noop(ctx, st, S, patterns.to_atoms(pat), atol, case["s"], w, variant=(case["s"] // 3) % 3,
+            P0 = patterns.to_atoms(pat)
+            variant = (case["s"] // 3) % 3
+            if case["s"] % 2 == 1 and pat["cls"] in ("asym4", "asym5", "asym6", "chiral4", "chiral5") and built["planted"]:
+                # a three-membered ring in every copy: all three angles over the same three atoms (one centred on each); the pattern
+                # carries just one of them - the other two are different terms and must survive the identical replacement
+                extra = []
+                for g in built["planted"]:
+                    a0, a1, a2 = int(g[0]), int(g[1]), int(g[2])
+                    extra += [(a0, a1, a2), (a1, a0, a2), (a0, a2, a1)]
+                old = np.asarray(S.angles).reshape(-1, 3)
+                keep = [tuple(int(v) for v in r) for r in old if tuple(sorted(int(v) for v in r)) not in {tuple(sorted(t)) for t in extra}]
+                allang = keep + extra
+                S.angles = np.array(allang, dtype=int)
+                S.angle_types = np.array([i % 2 for i in range(len(allang))])
+                S.extra_angle_fields = np.full((len(allang), 0), ".", dtype=object)
+                P0.angles = np.array([(0, 1, 2)], dtype=int)
+                P0.angle_types = np.array([0])
+                P0.extra_angle_fields = np.full((1, 0), ".", dtype=object)
+                variant = 0
+                st.count("self_replacements_with_several_terms_over_the_same_atoms")
+            n = check_noop(ctx, st, S, P0, atol, case["s"], w, variant=variant,
                            group=built["planted"][0] if built["planted"] else None)
         else:
             near_face = bool(case.get("exact")) and case["s"] % 3 == 1 and built["planted"]
@@ -328,6 +348,8 @@ def requirements(stats, tier):
     need = []
     if stats.get("self_replacements") < (100 if tier == "quick" else 12000) or stats.get("restorations_checked") < (100 if tier == "quick" else 12000):
         need.append("self replacements %d, restorations %d" % (stats.get("self_replacements"), stats.get("restorations_checked")))
+    if stats.get("self_replacements_with_several_terms_over_the_same_atoms") < (5 if tier == "quick" else 1000):
+        need.append("self replacements in structures with several angle terms over the same three atoms: %d" % stats.get("self_replacements_with_several_terms_over_the_same_atoms"))
     if stats.get("two_step_histories_with_the_substituted_atom_just_inside_a_far_face") < (10 if tier == "quick" else 500):
         need.append("two-step histories with the substituted atom a few millionths inside a far cell face: %d" % stats.get("two_step_histories_with_the_substituted_atom_just_inside_a_far_face"))
     if stats.get("two_step_histories_with_a_larger_B") < (20 if tier == "quick" else 2000):
